@@ -249,6 +249,54 @@ def second_database(ctx, subs):
                     ctx.count("second database: pairs agreeing on a value")
 
 
+def first_use_orders(ctx, spell, shard, nshards):
+    """What a spelling means must not depend on how it was used first. On a fresh database every legacy spelling is
+    used first under a category that is *not* the default category of its unit (then under the default one, then
+    without any) - and the other way round on a second fresh database - before the category-less forms of both
+    spellings are compared."""
+    import numpy as np
+    from barril.basic.fraction import FractionValue
+    from barril.units import Array, FractionScalar, ObtainQuantity, Scalar
+
+    for order in ("other category first", "no category first"):
+        db = table.build("posc")
+        with table.pushed(db):
+            cbt = table.categories_by_type(db)
+            for i, (leg, cur) in enumerate(sorted(spell.items())):
+                if i % nshards != shard:
+                    continue
+                qt = db.GetQuantityType(cur)
+                dc = db.GetDefaultCategory(cur)
+                others = [c for c in cbt.get(qt, []) if c != dc]
+                if not others or not dc:
+                    continue
+                oc_ = others[0]
+                try:
+                    if order == "other category first":
+                        first = [Scalar(1.0, leg, oc_), ObtainQuantity(leg, oc_, "a caption"), Array(oc_, [1.0], leg), Scalar(1.0, leg, dc)]
+                    else:
+                        first = [Scalar(1.0, leg), Scalar(1.0, leg, oc_), ObtainQuantity(leg, oc_)]
+                except Exception as e:
+                    ctx.ev()
+                    ctx.violation("first-use:legacy-spelling-refused:%s" % order, {"legacy": leg, "current": cur, "category": oc_, "error": repr(e)[:160]})
+                    continue
+                forms = (
+                    ("Scalar(x,u)", lambda u: Scalar(1.0, u)), ("ObtainQuantity(u)", lambda u: ObtainQuantity(u)), ("Array(values,u)", lambda u: Array([1.0, 2.0], u)),
+                    ("Array(ndarray,u)", lambda u: Array(np.array([1.0, 2.0]), u)), ("FractionScalar(x,u)", lambda u: FractionScalar(FractionValue(1, (1, 2)), u)),
+                    ("empty Scalar.CreateCopy(unit=u)", lambda u: Scalar.CreateEmptyScalar(2.0).CreateCopy(unit=u)), ("ObtainQuantity(u,None,caption)", lambda u: ObtainQuantity(u, None, "a caption")),
+                    ("Scalar(x,u,default category)", lambda u: Scalar(1.0, u, dc)), ("Scalar(x,u,other category)", lambda u: Scalar(1.0, u, oc_)),
+                )  # fmt: skip
+                for name, fn in forms:
+                    ctx.ev()
+                    ctx.nt(("first use", order, leg, name))
+                    ol, oc = outcome(lambda: fn(leg)), outcome(lambda: fn(cur))
+                    if ol != oc:
+                        ctx.violation("first-use:legacy-differs-from-current:%s" % name, {"order": order, "legacy": leg, "current": cur, "first_used_under": oc_, "default_category": dc, "with_legacy": ol, "with_current": oc}, replay={"legacy": leg, "current": cur})
+                    elif oc[0] == "ok":
+                        ctx.count("first-use pairs agreeing on a value")
+                del first
+
+
 def run(ctx):
     from barril.units import ObtainQuantity, Quantity, UnitDatabase
     from barril.units import unit_database as ud
@@ -340,6 +388,7 @@ def run(ctx):
         dead = sorted(n for n, k in per_entry.items() if k == 0)
         ctx.notes["entry_forms"] = {"with_a_value": sum(1 for k in per_entry.values() if k), "never_a_value": {n: per_entry_exc.get(n) for n in dead}}
         ctx.inconclusive_if(bool(dead) and ctx.nshards == 1, "entry forms that never produced a value: %s" % dead[:5])
+        first_use_orders(ctx, spell, ctx.shard, ctx.nshards)
         if ctx.shard == 0:
             second_database(ctx, subs)
             ctx.sample({"spellings": sorted(spell.items())[:12]})
